@@ -501,12 +501,27 @@ func c03Recognisers(p *Prog, r *Report) {
 			lits := map[string]bool{}
 			ptr := false
 			facts := relList(ip.Rels)
+			negRet := false
 			if ip.Ret[0] != "true" {
-				facts = append(facts, ip.Ret[0])
+				// the last conjunct is returned as a value: (X == "lit"); a returned (X != "lit") accepts
+				// everything but the type
+				if rel, ok := relFromKey(ip.Ret[0], true); ok {
+					facts = append(facts, rel)
+					if topLevelIndex(rel, " != ") >= 0 {
+						negRet = true
+					}
+				} else {
+					facts = append(facts, ip.Ret[0])
+				}
 			}
 			for _, k := range facts {
 				if strings.Contains(k, ".(*Pointer)#1 == true") || strings.Contains(k, ".(*Pointer)#0") {
 					ptr = true
+				}
+				// a value taken from a failed comma-ok assertion is nil: the path dereferences it
+				if strings.Contains(k, ".(*Named)#1 == false") || strings.Contains(k, ".(*Pointer)#1 == false") || strings.HasPrefix(k, "false == ") && strings.Contains(k, ".(*") {
+					okAll = false
+					detail = "a positive path runs under a failed type assertion (" + k + "): the asserted value is nil there"
 				}
 				if topLevelIndex(k, " != ") >= 0 || strings.HasSuffix(k, " == false") {
 					continue
@@ -516,6 +531,10 @@ func c03Recognisers(p *Prog, r *Report) {
 				}
 			}
 			got := sortedKeys(lits)
+			if negRet {
+				okAll = false
+				detail = fmt.Sprintf("the recogniser returns the negation of a comparison (%s): it accepts every type but the one it names", ip.Ret[0])
+			}
 			if strings.Join(got, ",") != strings.Join(want, ",") || !ptr {
 				okAll = false
 				detail = fmt.Sprintf("a positive path compares against %v (pointer required=%v): %s", got, ptr, ip.Trace)
